@@ -1,5 +1,6 @@
 import SlotVerif.Model.Parse
 import SlotVerif.Proofs.ParseRT
+import SlotVerif.Proofs.TokenizeRT
 /-!
 # C18 — Printing and parsing round-trip; parsing never panics
 
@@ -13,9 +14,13 @@ the printer at the token level** (`parse_printed_tokens`, `parsePat_printed`): f
 pattern `p` (`RT.WFP`: substitution patterns nested arbitrarily, operators with slots, binders and
 children, payload leaves that print unambiguously; excluded: named variants with payload fields —
 open finding F10), parsing the token sequence of its printed form returns exactly `p`, with the
-fuel the implementation's recursion depth corresponds to never running out.  That the *characters*
-printed by `Display` tokenize to that sequence (`$`-names through the C17 table, identifier
-characters) is established per run by the correspondence check.
+fuel the implementation's recursion depth corresponds to never running out.  **The character level**
+(`Proofs/TokenizeRT.lean`): the text `Display` prints tokenizes to exactly that token sequence
+(`tokenize_print`) whenever what is printed is tokenizable as intended (`RT.CharOK`: operator names,
+payloads and pattern-variable names are non-empty identifier texts not starting with `?`, `$` or `:=`;
+every slot is known to the table and its printed name reads back as the same slot — C17
+`display_named`; a node printed without parentheses is a bare operator/payload), so
+`print_parse_roundtrip`: **`Pattern::parse(p.to_string()) = Ok(p)`**, slot table unchanged.
 -/
 namespace SV.Parse.C18
 open SV SV.Parse
@@ -195,5 +200,60 @@ example : RT.WFP appSig
       subst this; decide
     · intro k hk; simp at hk; subst hk; rfl
     · intro a ha; simp [Node.appOcc, Field.appOcc] at ha
+
+/-- **printing a pattern and parsing the text back yields the pattern** (characters → tokens → pattern), for every
+signature and every slot table under which the pattern prints unambiguously -/
+theorem print_parse_roundtrip (sig : Sig) (t : Slot.Tab) (p : Pat) (hw : RT.WFP sig p) (hc : RT.CharOK sig t p) :
+    parsePat sig (printPat sig t p).toList t = .ok (p, t) :=
+  parsePat_printed sig p hw _ t t (RT.tokenize_print sig t p hc)
+
+/-- the tokenizer inverts the printer (characters → tokens) -/
+theorem tokenize_printed (sig : Sig) (t : Slot.Tab) (p : Pat) (hc : RT.CharOK sig t p) :
+    tokenize ((printPat sig t p).toList.length + 1) (printPat sig t p).toList t = .ok (RT.toksOf sig p, t) :=
+  RT.tokenize_print sig t p hc
+
+/-- non-vacuity of the character-level hypotheses: identifier texts, a pattern variable, a numeric slot of the
+empty table -/
+example : RT.IdentOK "app" := by
+  have h : "app".toList = ['a', 'p', 'p'] := rfl
+  exact ⟨by decide, by decide, by intro r; rw [h]; simp, by intro r; rw [h]; simp, by intro r; rw [h]; simp⟩
+example : RT.PvarOK "f" := ⟨by decide, by decide⟩
+example : RT.SlotOK {} 4 := by
+  refine ⟨⟨['1'], by decide, ?_, by decide, by decide⟩⟩
+  have : Slot.classify ['1'] = .num 1 := by decide
+  simp [Slot.named, this]
+
+/-- the pattern of the token-level example, with the numeric slot `$1` -/
+def exPat : Pat :=
+  .subst (.enode ⟨0, [.app RT.nullApp, .app RT.nullApp]⟩ [.pvar "f", .enode ⟨1, [.slot 4]⟩ []]) (.pvar "a") (.pvar "b")
+
+theorem identOK_of_toList {s : String} {c : Char} {r : List Char} (h : s.toList = c :: r)
+    (hall : ∀ x ∈ c :: r, identChar x = true) (h1 : c ≠ '?') (h2 : c ≠ '$') (h3 : c ≠ ':') : RT.IdentOK s :=
+  ⟨by rw [h]; simp, by rw [h]; exact hall, by intro r'; rw [h]; simp [h1], by intro r'; rw [h]; simp [h2],
+   by intro r'; rw [h]; simp [h3]⟩
+
+/-- … it meets the character-level hypotheses under the empty slot table -/
+example : RT.CharOK appSig {} exPat := by
+  have happ : RT.IdentOK "app" := identOK_of_toList (c := 'a') (r := ['p', 'p']) rfl (by decide) (by decide) (by decide) (by decide)
+  have hvar : RT.IdentOK "var" := identOK_of_toList (c := 'v') (r := ['a', 'r']) rfl (by decide) (by decide) (by decide) (by decide)
+  have hslot : RT.SlotOK {} 4 := by
+    refine ⟨⟨['1'], by decide, ?_, by decide, by decide⟩⟩
+    have : Slot.classify ['1'] = .num 1 := by decide
+    simp [Slot.named, this]
+  have s0 : Node.toSyntax appSig ⟨0, [.app RT.nullApp, .app RT.nullApp]⟩ = [.str "app", .app RT.nullApp, .app RT.nullApp] := rfl
+  have s1 : Node.toSyntax appSig ⟨1, [.slot 4]⟩ = [.str "var", .slot 4] := rfl
+  refine ⟨⟨?_, ?_, ?_, ?_, ⟨⟨by decide, by decide⟩, ⟨?_, ?_, ?_, ?_, trivial⟩, trivial⟩⟩, ⟨by decide, by decide⟩, ⟨by decide, by decide⟩⟩
+  · intro s hs; rw [s0] at hs; simp at hs; subst hs; exact happ
+  · intro c hc; rw [s0] at hc; simp at hc
+  · intro h; rw [s0] at h; simp at h
+  · rw [s0]; rfl
+  · intro s hs; rw [s1] at hs; simp at hs; subst hs; exact hvar
+  · intro c hc; rw [s1] at hc; simp at hc; subst hc; exact hslot
+  · intro h; rw [s1] at h; simp at h
+  · rw [s1]; rfl
+
+-- whole-text test of the same round trip (compiled evaluation)
+#guard (match parsePat appSig (printPat appSig {} exPat).toList {} with | .ok (p, _) => printPat appSig {} p == printPat appSig {} exPat | .error _ => false)
+#guard printPat appSig {} exPat == "(app ?f (var $1))[?a := ?b]"
 
 end SV.Parse.C18
